@@ -69,15 +69,16 @@ def H(name, props, tier="quick", timeout=900, weight=10, mem_gb=16, **kw):
 
 HARNESSES = [
     H("c14c01c02_lexer_dispatch", ["C14", "C01", "C02", "C17", "C20"], weight=20),
-    H("c14c01c02_lex_whitespace_q", ["C14", "C01", "C02", "C17"]),
-    H("c14c01c02_lex_line_comment_q", ["C14", "C01", "C02", "C17"]),
-    H("c14c01c02_lex_block_comment_q", ["C14", "C01", "C02", "C17"]),
-    H("c14c01c02_lex_number_q", ["C14", "C01", "C02", "C17"], weight=100),
-    H("c14c01c02_lex_identifier_q", ["C14", "C01", "C02", "C17"]),
-    H("c14c01c02_lex_string_q", ["C14", "C01", "C02", "C17"], weight=25),
-    H("c14c01c02_lex_var_name_q", ["C14", "C01", "C02", "C17"]),
-    H("c14c01c02_lex_code_q", ["C14", "C01", "C02", "C17"]),
-    H("c14c01c02_lex_hash_q", ["C14", "C01", "C02", "C17"]),
+] + [
+    H(f"c14c01c02_lex_{r}_q", ["C14", "C01", "C02", "C17"], weight=100 if r == "number" else 25,
+      unwind_is_violation=True, unwind_replay="lex_hang", fallback=f"c14c01c02_lex_{r}_s")
+    for r in ["whitespace", "line_comment", "block_comment", "number", "identifier", "string", "var_name", "code",
+              "hash"]
+] + [
+    H(f"c14c01c02_lex_{r}_s", ["FALLBACK"], weight=10, unwind_is_violation=True, unwind_replay="lex_hang")
+    for r in ["whitespace", "line_comment", "block_comment", "number", "identifier", "string", "var_name", "code",
+              "hash"]
+] + [
     H("c14c20_lex_bang_words_q", ["C14", "C20"], weight=80),
     H("c14c20_lex_keyword_words_q", ["C14", "C20"], weight=80),
 ] + [
@@ -127,11 +128,22 @@ HARNESSES += [
 L1 = ["c01c02_l1_eat", "c01c02_l1_skip", "c01c02_l1_eat_if", "c01c02c17_l1_expect_with_msg",
       "c01c02_l1_assert", "c01c02c17_l1_error_and_eat", "c01c02c17_l1_error_and_recover",
       "c02c17_l1_error_real", "c01c02_l1_new", "c02c04_l1_at_set_tables"]
+L1_FALLBACK = {"c01c02_l1_eat": "c01c02_l1_eat_s", "c01c02_l1_skip": "c01c02_l1_skip_s",
+               "c01c02c17_l1_error_and_eat": "c01c02c17_l1_error_and_eat_s"}
 HARNESSES += [
     H(n, [p for p in ("C01", "C02", "C17", "C04") if p.lower() in n.split("_")[0]], weight=40,
-      replay=None if n in ("c02c17_l1_error_real",) else "l1")
+      replay=None if n in ("c02c17_l1_error_real",) else "l1", fallback=L1_FALLBACK.get(n))
     for n in L1
+] + [
+    H(n, ["FALLBACK"], weight=10, replay="l1") for n in L1_FALLBACK.values()
 ]
+
+
+def by_name(name):
+    for h in HARNESSES:
+        if h["name"] == name:
+            return h
+    return None
 
 
 def plan_for(prop, tier):
